@@ -4,6 +4,7 @@ import (
 	"fmt"
 	"go/ast"
 	"go/types"
+	"sort"
 	"strings"
 
 	"mlverif/core"
@@ -173,7 +174,14 @@ func (f *flowSpec) Call(x *gea.Exec, st *gea.State, call *ast.CallExpr, env *gea
 
 // explore runs the flow spec over a declared function.
 func (c *Ctx) flow(fn *core.Func, alias map[string]string, quiet ...string) *gea.Exec {
-	key := "flow:" + fn.Name
+	qs := append([]string(nil), quiet...)
+	sort.Strings(qs)
+	as := make([]string, 0, len(alias))
+	for k, v := range alias {
+		as = append(as, k+"="+v)
+	}
+	sort.Strings(as)
+	key := "flow:" + fn.Name + "|" + strings.Join(qs, ",") + "|" + strings.Join(as, ",")
 	if m, ok := c.models[key]; ok {
 		return m.(*gea.Exec)
 	}
